@@ -272,6 +272,10 @@ def dotted_name(e: ast.AST) -> str:
   return ''
 
 
+_STR_METHODS = {'startswith', 'endswith', 'split', 'rsplit', 'join', 'translate', 'replace', 'removeprefix', 'removesuffix', 'strip',
+                'lstrip', 'rstrip', 'lower', 'upper', 'partition', 'rpartition', 'find', 'index', 'count', 'isidentifier'}
+
+
 def _lookup_failed(key: str) -> Exception:
   class _LF(NoValue, LookupFailed):
     pass
@@ -289,8 +293,40 @@ def neval(e: ast.AST, env: Dict[str, object]):
     return neval(e.value, env)
   if isinstance(e, ast.Tuple):
     return tuple(neval(x, env) for x in e.elts)
+  if isinstance(e, ast.Subscript) and isinstance(e.slice, ast.Slice):
+    base = neval(e.value, env)
+    lo, hi, st_ = (neval(x, env) if x is not None else None for x in (e.slice.lower, e.slice.upper, e.slice.step))
+    try:
+      return base[lo:hi:st_]
+    except TypeError:
+      raise NoValue(key)
+  if isinstance(e, ast.Call) and dotted_name(e.func) == 'str.maketrans' and len(e.args) == 1 and not e.keywords:
+    d_ = neval(e.args[0], env)
+    if isinstance(d_, dict):
+      try:
+        return str.maketrans(d_)
+      except (TypeError, ValueError):
+        raise NoValue(key)
+  if isinstance(e, ast.Call) and isinstance(e.func, ast.Attribute) and not e.keywords and e.func.attr in _STR_METHODS:
+    try:
+      recv = neval(e.func.value, env)
+    except NoValue:
+      recv = None
+    if isinstance(recv, str):
+      args_ = [neval(a, env) for a in e.args]
+      if e.func.attr == 'join' and args_:
+        args_ = [list(args_[0])] + args_[1:]
+      try:
+        return getattr(recv, e.func.attr)(*args_)
+      except (TypeError, ValueError):
+        raise NoValue(key)
   if isinstance(e, ast.Subscript) and isinstance(e.slice, ast.Constant):
-    return neval(e.value, env)[e.slice.value]
+    try:
+      return neval(e.value, env)[e.slice.value]
+    except (KeyError, IndexError):
+      raise _lookup_failed(key)
+    except TypeError:
+      raise NoValue(key)
   if isinstance(e, ast.Subscript) and not isinstance(e.slice, ast.Slice):
     base, idx = neval(e.value, env), neval(e.slice, env)
     try:
@@ -417,7 +453,7 @@ def neval(e: ast.AST, env: Dict[str, object]):
           gen(i + 1, env3)
     gen(0, dict(env))
     return out
-  if isinstance(e, ast.ListComp) and len(e.generators) == 1 and isinstance(e.generators[0].target, ast.Name) and not e.generators[0].is_async:
+  if isinstance(e, (ast.ListComp, ast.GeneratorExp)) and len(e.generators) == 1 and isinstance(e.generators[0].target, ast.Name) and not e.generators[0].is_async:
     gen = e.generators[0]
     out = []
     for v in neval(gen.iter, env):
@@ -530,6 +566,14 @@ def method_hook(methods: Dict[str, ast.AST], depth: int = 0):
   return hook
 
 
+def _as_load(t: ast.AST) -> ast.AST:
+  t = copy.deepcopy(t)
+  for x in ast.walk(t):
+    if isinstance(x, (ast.Name, ast.Subscript, ast.Attribute)) and isinstance(getattr(x, 'ctx', None), ast.Store):
+      x.ctx = ast.Load()
+  return t
+
+
 def run_concrete(fn: ast.AST, env: Dict[str, object], tolerant: bool = False):
   """Interprets a loop-free function body (assignments to names, if/else, return, bare expressions) on a concrete
   environment (unparsed expression -> value) with `neval`; returns the returned value.  NoValue if the body leaves
@@ -568,6 +612,28 @@ def run_concrete(fn: ast.AST, env: Dict[str, object], tolerant: bool = False):
           raise NoValue(unparse(st.value, 0))
         for t, x in zip(st.targets[0].elts, vs):
           env[t.id] = x
+      elif isinstance(st, ast.AugAssign) and isinstance(st.op, (ast.Add, ast.Sub, ast.Mult)) and isinstance(st.target, (ast.Name, ast.Subscript)):
+        cur = neval(ast.copy_location(_as_load(st.target), st), env)
+        rhs = neval(st.value, env)
+        try:
+          val = cur + rhs if isinstance(st.op, ast.Add) else cur - rhs if isinstance(st.op, ast.Sub) else cur * rhs
+        except TypeError:
+          raise NoValue(unparse(st, 0))
+        if isinstance(st.target, ast.Name):
+          env[st.target.id] = val
+        else:
+          cont = neval(st.target.value, env)
+          idx = neval(st.target.slice, env)
+          try:
+            cont[idx] = val
+          except (TypeError, IndexError, KeyError):
+            raise NoValue(unparse(st, 0))
+      elif isinstance(st, ast.Assign) and len(st.targets) == 1 and isinstance(st.targets[0], ast.Subscript) \
+          and isinstance(st.targets[0].value, ast.Name) and isinstance(env.get(st.targets[0].value.id), (list, dict)):
+        try:
+          env[st.targets[0].value.id][neval(st.targets[0].slice, env)] = neval(st.value, env)
+        except (TypeError, IndexError):
+          raise NoValue(unparse(st, 0))
       elif isinstance(st, ast.Raise):
         raise Raised(unparse(st.exc, 60) if st.exc is not None else 'raise')
       elif isinstance(st, ast.For) and not st.orelse and (isinstance(st.target, ast.Name) or (
